@@ -20,6 +20,8 @@ import (
 	"time"
 
 	"github.com/anishathalye/porcupine"
+	"github.com/projecteru2/core/lock/etcdlock"
+	"github.com/projecteru2/core/store/etcdv3/embedded"
 	clientv3 "go.etcd.io/etcd/client/v3"
 
 	"verifharness/sim"
@@ -433,6 +435,33 @@ type c19Case struct {
 	LatencyMs int64         `json:"latency_ms,omitempty"`
 }
 
+// acqKV lets the harness act in the window between the etcd server committing a lock's acquiring transaction and
+// the lock call returning to its caller: after runs once, right after the first transaction of this client that
+// succeeded (the key was created), before the answer is handed back.
+type acqKV struct {
+	clientv3.KV
+	once  sync.Once
+	after func()
+}
+
+func (k *acqKV) Txn(ctx context.Context) clientv3.Txn { return &acqTxn{Txn: k.KV.Txn(ctx), k: k} }
+
+type acqTxn struct {
+	clientv3.Txn
+	k *acqKV
+}
+
+func (t *acqTxn) If(cs ...clientv3.Cmp) clientv3.Txn   { t.Txn = t.Txn.If(cs...); return t }
+func (t *acqTxn) Then(ops ...clientv3.Op) clientv3.Txn { t.Txn = t.Txn.Then(ops...); return t }
+func (t *acqTxn) Else(ops ...clientv3.Op) clientv3.Txn { t.Txn = t.Txn.Else(ops...); return t }
+func (t *acqTxn) Commit() (*clientv3.TxnResponse, error) {
+	resp, err := t.Txn.Commit()
+	if err == nil && resp.Succeeded {
+		t.k.once.Do(t.k.after)
+	}
+	return resp, err
+}
+
 func TestC19(t *testing.T) {
 	env := vkit.Load("C19")
 	rec := vkit.NewRec(env)
@@ -550,13 +579,129 @@ func TestC19(t *testing.T) {
 		rec.Sample(c)
 	}
 
+	// the holder loses its lease DURING the acquisition: after the server committed the acquiring transaction and
+	// before Lock / TryLock returned (a stalled client, a revoke at that moment). The real etcdlock.Mutex runs on a
+	// client of its own whose KV is decorated (acqKV); whatever the call returns, a context it returns with a nil
+	// error must end within the bound.
+	runDuring := func(c *c19Case, key string) {
+		cluster := embedded.NewCluster(t, s.cfg.Etcd.Prefix)
+		cliA, err := cluster.NewClientV3(0)
+		if err != nil {
+			rec.Inconclusive("client: %v", err)
+			return
+		}
+		defer cliA.Close()
+		cliB, err := cluster.NewClientV3(0)
+		if err != nil {
+			rec.Inconclusive("client: %v", err)
+			return
+		}
+		defer cliB.Close()
+		bound := 2 * c.TTL
+		full := "/c19acq/" + key
+		acquired := make(chan time.Time, 1)
+		var hookErr error
+		hook := &acqKV{KV: cliA.KV}
+		hook.after = func() {
+			if c.Contender {
+				go func() {
+					b, err := etcdlock.New(cliB, full, c.TTL)
+					if err != nil {
+						return
+					}
+					for i := 0; i < 4; i++ {
+						if _, err := b.Lock(bg); err == nil {
+							acquired <- time.Now()
+							time.Sleep(bound + 2*time.Second)
+							_ = b.Unlock(bg)
+							return
+						}
+					}
+				}()
+				time.Sleep(100 * time.Millisecond)
+			}
+			resp, err := cliB.Get(bg, full+"/", clientv3.WithPrefix(), clientv3.WithSort(clientv3.SortByCreateRevision, clientv3.SortAscend))
+			if err != nil || len(resp.Kvs) == 0 || resp.Kvs[0].Lease == 0 {
+				hookErr = fmt.Errorf("cannot find the holder's lock key: %v (%d keys)", err, len(resp.Kvs))
+				return
+			}
+			if _, err := cliB.Revoke(bg, clientv3.LeaseID(resp.Kvs[0].Lease)); err != nil {
+				hookErr = fmt.Errorf("revoke: %v", err)
+				return
+			}
+			// the answer of the acquiring transaction stays "on its way" until the client has had the time to learn
+			// that its lease is gone (one keepalive interval and a bit)
+			time.Sleep(c.TTL/3 + 700*time.Millisecond)
+		}
+		cliA.KV = hook
+		a, err := etcdlock.New(cliA, full, c.TTL)
+		if err != nil {
+			rec.Inconclusive("etcdlock.New: %v", err)
+			return
+		}
+		var actx context.Context
+		if c.HolderOp == "trylock" {
+			actx, err = a.TryLock(bg)
+		} else {
+			actx, err = a.Lock(bg)
+		}
+		returned := time.Now()
+		if hookErr != nil {
+			rec.Inconclusive("%v", hookErr)
+			return
+		}
+		rec.Count("losses/"+c.Backend+"/"+c.Loss, 1)
+		if err != nil || actx == nil {
+			rec.Count("acquisition_reported_failure_after_loss/"+c.Backend, 1) // fine: nobody believes to hold the lock
+			rec.Nontrivial(fmt.Sprintf("%+v", *c))
+			return
+		}
+		coexistFrom := returned
+		if c.Contender {
+			select {
+			case ta := <-acquired:
+				if ta.After(coexistFrom) {
+					coexistFrom = ta
+				}
+				rec.Count("second_holder_acquired/"+c.Backend, 1)
+			case <-time.After(3*c.TTL + 2*time.Second):
+				rec.Inconclusive("%s: the waiting contender did not get the lock after the holder lost it", c.Backend)
+				return
+			}
+		}
+		select {
+		case <-actx.Done():
+			lat := time.Since(returned)
+			c.LatencyMs = lat.Milliseconds()
+			rec.Count("holders_notified/"+c.Backend+"/"+c.Loss, 1)
+			rec.Max("max:notification_latency_ms/"+c.Backend, int(lat.Milliseconds()))
+		case <-time.After(time.Until(coexistFrom.Add(bound))):
+			who := "no contender"
+			if c.Contender {
+				who = "another contender holds the lock"
+			}
+			rec.Violation(fmt.Sprintf("%s/context-never-cancelled/%s", c.Backend, c.Loss),
+				fmt.Sprintf("%v after a %s returned successfully although its lease had been revoked while the call was in progress (%s), the context it returned is still live", bound, c.HolderOp, who), c)
+		}
+		_ = a.Unlock(bg)
+		rec.Nontrivial(fmt.Sprintf("%+v", *c))
+		rec.Sample(c)
+	}
+	dispatch := func(c *c19Case, key string) {
+		if c.Loss == "lease-revoked-during-acquisition" {
+			runDuring(c, key)
+		} else {
+			run(c, key)
+		}
+	}
+
 	if env.Replay != "" {
 		var c c19Case
 		if err := vkit.ReadReplay(env.Replay, &c); err != nil {
 			t.Fatal(err)
 		}
 		rec.Eval()
-		run(&c, "replay")
+		dispatch(&c, "replay")
 		return
 	}
 	n := env.Pick(64, 640) / env.NBatch
@@ -579,10 +724,13 @@ func TestC19(t *testing.T) {
 		}
 		wg.Add(1)
 		sem <- struct{}{}
+		if i%4 == 1 {
+			c.Loss = "lease-revoked-during-acquisition"
+		}
 		go func() {
 			defer wg.Done()
 			defer func() { <-sem }()
-			run(c, key)
+			dispatch(c, key)
 		}()
 	}
 	wg.Wait()
